@@ -444,3 +444,44 @@ def ite(c, a, b):
 
 def is_container(v):
     return isinstance(v, (SetV, DictV, ListV, Loc))
+
+
+def _has_ite(t):
+    seen = set()
+    stack = [t]
+    while stack:
+        f = stack.pop()
+        if f.get_id() in seen:
+            continue
+        seen.add(f.get_id())
+        if z3.is_app(f):
+            if f.decl().kind() == z3.Z3_OP_ITE or z3.is_and(f) or z3.is_or(f) or z3.is_not(f) \
+                    or z3.is_eq(f) or z3.is_implies(f):
+                return True
+            stack.extend(f.children())
+    return False
+
+
+def forall(vs, body, patterns=None):
+    """ForAll with the given trigger patterns, dropping patterns z3 rejects
+    (containing if-then-else / connectives); without a usable pattern z3 picks."""
+    good = []
+    for p in (patterns or []):
+        try:
+            if z3.is_app(p) and p.decl().kind() == z3.Z3_OP_UNINTERPRETED and p.decl().name() == '':
+                continue
+        except Exception:
+            pass
+        parts = p.children() if (hasattr(p, 'children') and getattr(p, 'is_multipattern', False)) else [p]
+        try:
+            if any(_has_ite(x) for x in ([p] if not isinstance(p, z3.PatternRef) else [])):
+                continue
+        except Exception:
+            continue
+        good.append(p)
+    if good:
+        try:
+            return z3.ForAll(vs, body, patterns=good)
+        except z3.Z3Exception:
+            pass
+    return z3.ForAll(vs, body)
